@@ -92,7 +92,83 @@ def mutations(rng, s, alphabet, n, exhaustive_single=False):
             yield s + rng.choice(alphabet), "extend"
 
 
+
+def _bech32_polymod(values):
+    gen = (0x3b6a57b2, 0x26508e6d, 0x1ea119fa, 0x3d4233dd, 0x2a1462b3)
+    chk = 1
+    for v in values:
+        b = chk >> 25
+        chk = ((chk & 0x1ffffff) << 5) ^ v
+        for i in range(5):
+            chk ^= gen[i] if (b >> i) & 1 else 0
+    return chk
+
+
+def _bech32_string(hrp, data5, const=1):
+    """BIP-173 / BIP-350 string for the 5-bit groups `data5` (checksum from the published polymod, not the library's)"""
+    exp = [ord(c) >> 5 for c in hrp] + [0] + [ord(c) & 31 for c in hrp]
+    pm = _bech32_polymod(exp + list(data5) + [0] * 6) ^ const
+    return hrp + "1" + "".join(B32C[d] for d in list(data5) + [(pm >> 5 * (5 - i)) & 31 for i in range(6)])
+
+
+def _cashaddr_string(hrp, data5):
+    gen = (0x98f2bc8e61, 0x79b76d99e2, 0xf33e5fb3c4, 0xae2eabe2a8, 0x1e4f43e470)
+
+    def polymod(values):
+        c = 1
+        for d in values:
+            c0 = c >> 35
+            c = ((c & 0x07ffffffff) << 5) ^ d
+            for i in range(5):
+                c ^= gen[i] if (c0 >> i) & 1 else 0
+        return c ^ 1
+    pm = polymod([ord(c) & 31 for c in hrp] + [0] + list(data5) + [0] * 8)
+    return hrp + ":" + "".join(B32C[d] for d in list(data5) + [(pm >> 5 * (7 - i)) & 31 for i in range(8)])
+
+
+def _groups5(b):
+    acc, bits, out = 0, 0, []
+    for x in b:
+        acc, bits = (acc << 8) | x, bits + 8
+        while bits >= 5:
+            bits -= 5
+            out.append((acc >> bits) & 31)
+    if bits:
+        out.append((acc << (5 - bits)) & 31)
+    return out
+
+
+def regrouped_spellings(rng, tier):
+    """non-canonical 5-bit spellings of a byte payload with a VALID checksum: a whole extra all-zero group, two extra groups, non-zero
+    padding bits, a dropped last group — only the canonical regrouping may be accepted"""
+    for ln in (1, 2, 3, 4, 5, 20, 32) if tier == "quick" else (1, 2, 3, 4, 5, 6, 7, 8, 9, 10, 19, 20, 21, 32, 33, 40):
+        payload = bytes(rng.randrange(256) for _ in range(ln))
+        g = _groups5(payload)
+        pad_bits = 5 * len(g) - 8 * ln
+        variants = [("canonical", g), ("extra-zero-group", g + [0]), ("two-extra-groups", g + [0, 0]), ("extra-nonzero-group", g + [1]), ("dropped-group", g[:-1])]
+        if pad_bits:
+            variants.append(("nonzero-padding", g[:-1] + [g[-1] | 1]))
+        for kind, d in variants:
+            cls = "valid-regroup" if kind == "canonical" else "neg-regroup-" + kind
+            yield Case("bech32dec", [tx("test"), tx(_bech32_string("test", d))], cls)
+            if ln in (2, 20, 32, 40):
+                for v, const in ((0, 1), (1, 0x2bc830a3)):
+                    if v == 0 and ln not in (20, 32):
+                        continue
+                    yield Case("segwitdec", [tx("bc"), tx(_bech32_string("bc", [v] + d, const))], cls)
+            if ln == 20:
+                yield Case("addrdec", ["atom", tx(_bech32_string("cosmos", d)), "hrp=" + tx("cosmos")], cls)
+                yield Case("addrdec", ["p2wpkh", tx(_bech32_string("bc", [0] + d)), "hrp=" + tx("bc")], cls)
+            if ln == 32:
+                yield Case("addrdec", ["p2tr", tx(_bech32_string("bc", [1] + d, 0x2bc830a3)), "hrp=" + tx("bc")], cls)
+        if ln in (20, 32):
+            g = _groups5(b"\x00" + payload)
+            for kind, d in (("canonical", g), ("extra-zero-group", g + [0]), ("dropped-group", g[:-1])):
+                yield Case("bchdec", [tx("bitcoincash"), tx(_cashaddr_string("bitcoincash", d))], "valid-regroup" if kind == "canonical" else "neg-regroup-" + kind)
+
+
 def gen(rng, tier):
+    yield from regrouped_spellings(rng, tier)
     T = fmt_table()
     n_addr = 2 if tier == "quick" else 12
     n_mut = 40 if tier == "quick" else 500
